@@ -387,3 +387,209 @@ Fixpoint ms_chain_ok (keys : list Z) (m : nat) (S : list Z) (ops : list mop) : b
   | MHand HRaw :: r => false
   | _ :: r => ms_chain_ok keys m S r
   end.
+
+(* =====================================================================================================
+   The fields a signature commits to, how a spend is created, and what each hand-off channel does to them.
+
+   Wallet.transaction_create(output_arr, input_arr, fee, min_confirms, locktime, number_of_change_outputs,
+                             random_output_order=False, replace_by_fee):
+       transaction = WalletTransaction(locktime=locktime, replace_by_fee=...)           # version 1
+       if not locktime and self.anti_fee_sniping:
+           blockcount = srv.blockcount();  if blockcount: transaction.locktime = blockcount
+       sequence = 0xffffffff
+       if replace_by_fee: sequence = SEQUENCE_REPLACE_BY_FEE (0xfffffffd)
+       elif 0 < transaction.locktime < 0xffffffff: sequence = SEQUENCE_ENABLE_LOCKTIME (0xfffffffe)
+       inputs: selected UTXOs / tuples get [sequence]; an Input OBJECT keeps its own inp.sequence
+       change = total_in - total_out - fee;  < 0 -> WalletError;  <= dust_amount -> added to the fee, no change
+       else number_of_change_outputs outputs to fresh change keys (amounts random when more than one: only their
+       number and sum are modelled; the minimum-size test for several change outputs is not modelled)
+   An outpoint, a script code and a destination are abstract names here (Z); the amounts are real.
+   ===================================================================================================== *)
+Record mtxin := { ti_prev : Z;      (* which unspent output *)
+                  ti_seq : Z;       (* nSequence *)
+                  ti_value : Z;     (* amount of the output being spent (committed to by BIP143) *)
+                  ti_code : Z }.    (* script code = redeem script of the address row it spends *)
+Record mtxout := { to_dest : Z;     (* j >= 0: j-th requested destination; -1-j: j-th change output *)
+                   to_value : Z }.
+Record mfields := { tf_version : Z; tf_locktime : Z; tf_ins : list mtxin; tf_outs : list mtxout }.
+
+Definition x_seq_final : Z := 4294967295.
+Definition x_seq_locktime : Z := 4294967294.
+Definition x_seq_rbf : Z := 4294967293.
+
+Definition lib_tx_locktime (afs : bool) (blockcount locktime : Z) : Z :=
+  if (locktime =? 0) && afs then (if blockcount =? 0 then locktime else blockcount) else locktime.
+
+Definition lib_default_sequence (rbf : bool) (tx_locktime : Z) : Z :=
+  if rbf then x_seq_rbf
+  else if (0 <? tx_locktime) && (tx_locktime <? 4294967295) then x_seq_locktime else x_seq_final.
+
+Record menv := { ev_blockcount : Z;      (* Service.blockcount() *)
+                 ev_dust : Z;            (* network.dust_amount *)
+                 ev_confirms : Z }.      (* confirmations of every unspent output the provider reports *)
+
+Record mspend := { sp_rbf : bool; sp_locktime : Z; sp_fee : Z;
+                   sp_outs : list Z;                 (* requested outputs: amounts, destination j = position *)
+                   sp_nchange : nat;                 (* number_of_change_outputs (>= 1) *)
+                   sp_ins : list (Z * Z * Z);        (* (outpoint, amount, script code) of the inputs used *)
+                   sp_minconf : option Z }.          (* Some c: inputs chosen by select_inputs(min_confirms=c) *)
+
+Definition zsum (l : list Z) : Z := fold_right Z.add 0 l.
+
+Fixpoint lib_change_outs (j : nat) (n : nat) (first rest : Z) : list mtxout :=
+  match n with
+  | O => []
+  | S n' => {| to_dest := -1 - Z.of_nat j; to_value := match j with O => first | _ => rest end |}
+            :: lib_change_outs (S j) n' first rest
+  end.
+
+Fixpoint lib_requested_outs (j : Z) (l : list Z) : list mtxout :=
+  match l with
+  | [] => []
+  | v :: r => {| to_dest := j; to_value := v |} :: lib_requested_outs (j + 1) r
+  end.
+
+(* None = WalletError *)
+Definition lib_create_fields (ev : menv) (afs : bool) (sp : mspend) : option mfields :=
+  let lt := lib_tx_locktime afs (ev_blockcount ev) (sp_locktime sp) in
+  let sq := lib_default_sequence (sp_rbf sp) lt in
+  let change := zsum (map (fun i => snd (fst i)) (sp_ins sp)) - zsum (sp_outs sp) - sp_fee sp in
+  let starved := match sp_minconf sp with Some c => ev_confirms ev <? c | None => false end in
+  if starved then None
+  else if change <? 0 then None
+  else
+    let n := Z.of_nat (sp_nchange sp) in
+    let cho := if change <=? ev_dust ev then []
+               else lib_change_outs 0 (sp_nchange sp) (change - (n - 1) * (change / n)) (change / n) in
+    Some {| tf_version := 1; tf_locktime := lt;
+            tf_ins := map (fun i => {| ti_prev := fst (fst i); ti_seq := sq; ti_value := snd (fst i);
+                                       ti_code := snd i |}) (sp_ins sp);
+            tf_outs := lib_requested_outs 0 (sp_outs sp) ++ cho |}.
+
+Definition tf_with_seq (sq : Z) (f : mfields) : mfields :=
+  {| tf_version := tf_version f; tf_locktime := tf_locktime f;
+     tf_ins := map (fun i => {| ti_prev := ti_prev i; ti_seq := sq; ti_value := ti_value i; ti_code := ti_code i |})
+                   (tf_ins f);
+     tf_outs := tf_outs f |}.
+Definition tf_with_locktime (lt : Z) (f : mfields) : mfields :=
+  {| tf_version := tf_version f; tf_locktime := lt; tf_ins := tf_ins f; tf_outs := tf_outs f |}.
+
+(* what the importing wallet (anti_fee_sniping = afs) rebuilds:
+   object: transaction_create(t.outputs, t.inputs, fee=t.fee): Input objects keep their sequence, values and
+           scripts; locktime, version are copied from t afterwards;
+   dict:   inputs become tuples (prev_txid, output_n, None, value, signatures, script, address, sequence);
+           locktime, version copied afterwards;
+   raw:    transaction_create(parsed outputs, parsed inputs, locktime=t.locktime): sequences come with the parsed
+           Input objects, amounts from this wallet's own records; locktime, version are copied afterwards.
+   Every channel carries every committed field (since fixes C10-3 and C10-4). *)
+Definition ms_channel_fields (h : handoff) (afs : bool) (blockcount : Z) (f : mfields) : mfields := f.
+
+Definition mtxin_eqb (a b : mtxin) : bool :=
+  (ti_prev a =? ti_prev b) && (ti_seq a =? ti_seq b) && (ti_value a =? ti_value b) && (ti_code a =? ti_code b).
+Definition mtxout_eqb (a b : mtxout) : bool := (to_dest a =? to_dest b) && (to_value a =? to_value b).
+Fixpoint list_eqb {A : Type} (eqb : A -> A -> bool) (l1 l2 : list A) : bool :=
+  match l1, l2 with
+  | [], [] => true
+  | x :: r1, y :: r2 => eqb x y && list_eqb eqb r1 r2
+  | _, _ => false
+  end.
+Definition mfields_eqb (a b : mfields) : bool :=
+  (tf_version a =? tf_version b) && (tf_locktime a =? tf_locktime b) &&
+  list_eqb mtxin_eqb (tf_ins a) (tf_ins b) && list_eqb mtxout_eqb (tf_outs a) (tf_outs b).
+
+(* ---------- ceremonies over committed fields ----------
+   A signature is valid for a key only over the fields it was made for.  Every distinct value of the fields met
+   in a chain gets an epoch number (position in [cs_seen]); the signature of participant c made in epoch e is
+   stored with sg_by = c + 16 * e (at most 15 cosigners).  A step in epoch e is the plain step of above applied
+   to the state whose key names are shifted into the epoch (k + 16 * e): a signature of another epoch then
+   matches no key.  Tags (public keys, the same in every epoch) are stored unshifted. *)
+Definition ep_shift (d : Z) (s : msig) : msig :=
+  {| sg_by := sg_by s; sg_tag := option_map (fun t => t + d) (sg_tag s) |}.
+Definition ep_input (d : Z) (x : minput) : minput :=
+  {| mi_keys := map (fun k => k + d) (mi_keys x); mi_sigs := map (ep_shift d) (mi_sigs x) |}.
+Definition ep_state (d : Z) (st : mstate) : mstate :=
+  {| st_ins := map (ep_input d) (st_ins st); st_verified := st_verified st |}.
+Definition ep_obs (d : Z) (o : mobs) : mobs :=
+  match o with
+  | ObState v ins => ObState v (map (map (ep_shift d)) ins)
+  | o => o
+  end.
+
+(* WalletTransaction.sign(keys=[child private key]) in a wallet without private keys: Transaction.sign is called for
+   every input with that one key; an input whose key list does not contain it is skipped (fail_on_unknown_key =
+   False).  A child key belongs to ONE address: [mask] says which inputs spend that address. *)
+Fixpoint ms_sign_some (ins : list minput) (mask : list bool) (c : Z) : option (list minput) :=
+  match ins with
+  | [] => Some []
+  | x :: r =>
+    let hit := match mask with b :: _ => b | [] => false end in
+    match (if hit then ms_sign_input (mi_keys x) (mi_sigs x) (Some c) else Some (mi_sigs x)),
+          ms_sign_some r (tl mask) c with
+    | Some l, Some r' => Some (mi_with x l :: r')
+    | _, _ => None
+    end
+  end.
+
+Definition ms_step_key (m : nat) (st : mstate) (c : Z) (mask : list bool) : mstate * mobs :=
+  match ms_sign_some (st_ins st) mask c with
+  | None => (st, ObRaise)
+  | Some ins1 =>
+    let (v, ins2) := ms_tx_verify m ins1 in
+    ({| st_ins := ins2; st_verified := v |}, ObState v (map mi_sigs ins2))
+  end.
+
+Inductive cop :=
+| CSign (c : option Z)
+| CHand (h : handoff) (afs : bool)       (* afs: anti_fee_sniping of the importing wallet *)
+| CSend
+| CSignKey (c : Z) (mask : list bool).   (* sign(keys=[one child key of participant c]) in a watch-only wallet *)
+(* the op of the plain ceremony (no meaning for CSignKey, which the plain ceremony does not have) *)
+Definition cop_plain (o : cop) : mop :=
+  match o with CSign c => MSign c | CHand h _ => MHand h | CSend => MSend | CSignKey _ _ => MSign None end.
+Definition cs_plain_step (m : nat) (d : Z) (st : mstate) (o : cop) : mstate * mobs :=
+  match o with
+  | CSign (Some c) => ms_step m st (MSign (Some (c + d)))
+  | CSignKey c mask => ms_step_key m st (c + d) mask
+  | o => ms_step m st (cop_plain o)
+  end.
+
+Record cstate := { cs_st : mstate; cs_fields : mfields; cs_seen : list mfields; cs_epoch : nat }.
+
+Fixpoint ep_find (f : mfields) (seen : list mfields) : option nat :=
+  match seen with
+  | [] => None
+  | g :: r => if mfields_eqb f g then Some O else option_map S (ep_find f r)
+  end.
+
+Definition cs_step (m : nat) (blockcount : Z) (cs : cstate) (o : cop) : cstate * mobs :=
+  let f' := match o with CHand h afs => ms_channel_fields h afs blockcount (cs_fields cs) | _ => cs_fields cs end in
+  let (e', seen') := match ep_find f' (cs_seen cs) with
+                     | Some e => (e, cs_seen cs)
+                     | None => (length (cs_seen cs), cs_seen cs ++ [f'])
+                     end in
+  let d := 16 * Z.of_nat e' in
+  let (st', ob) := cs_plain_step m d (ep_state d (cs_st cs)) o in
+  ({| cs_st := ep_state (- d) st'; cs_fields := f'; cs_seen := seen'; cs_epoch := e' |}, ep_obs (- d) ob).
+
+Fixpoint cs_run (m : nat) (bc : Z) (cs : cstate) (ops : list cop) : list (mobs * mfields * nat) :=
+  match ops with
+  | [] => []
+  | o :: r => let (cs', ob) := cs_step m bc cs o in (ob, cs_fields cs', cs_epoch cs') :: cs_run m bc cs' r
+  end.
+
+Fixpoint cs_final (m : nat) (bc : Z) (cs : cstate) (ops : list cop) : cstate :=
+  match ops with
+  | [] => cs
+  | o :: r => cs_final m bc (fst (cs_step m bc cs o)) r
+  end.
+
+Definition cs_init (f : mfields) (keyss : list (list Z)) : cstate :=
+  {| cs_st := ms_init keyss; cs_fields := f; cs_seen := [f]; cs_epoch := O |}.
+
+(* the chains covered by m_signers_suffice_committed: those of ms_chain_ok (no per-address key signing) *)
+Fixpoint cs_chain_ok (bc : Z) (f : mfields) (ops : list cop) : bool :=
+  match ops with
+  | [] => true
+  | CSignKey _ _ :: r => false
+  | _ :: r => cs_chain_ok bc f r
+  end.
